@@ -248,7 +248,15 @@ def run_levels(ctx):
             Mentions(Index(PREFIX, Bin("Sub", bitsn, Lit(1))))(c[2][5])
         rds = g.retdefs
         okl = [rd for rd in rds if rd.kind == "ok" and Agg("IdpfOutputShare::Leaf", lambda x: x == c)(rd.payload)]
-        oki = [rd for rd in rds if rd.kind == "ok" and Agg("IdpfOutputShare::Inner", S(Var("last_inner_output")))(rd.payload)]
+        def _last_inner(x):
+            # Option local that is None initially and Some(<the level loop's eval_next result>) afterwards - by definition, not by name
+            x = strip(x)
+            if not (isinstance(x, tuple) and x[0] == "phi"):
+                return False
+            from guards import phi_defs as _pd
+            ds = [d[0] for d in _pd(g, x[1])]
+            return len(ds) == 2 and any(Agg("Option::None")(d) for d in ds) and any(Agg("Option::Some", lambda y: ev and y == ev[0][1])(d) for d in ds)
+        oki = [rd for rd in rds if rd.kind == "ok" and Agg("IdpfOutputShare::Inner", _last_inner)(rd.payload)]
         good = good and len(okl) == 1 and len(oki) == 1 and len(rds) == 2
     req(ctx, rule, K + "leaf-step", good, "len(prefix) == bits: Leaf(eval_next(leaf parameter, leaf cw, prefix[bits-1])); else Inner(last inner output)",
         "the leaf level is not evaluated exactly when the prefix has full length, or the wrong output is returned", loc=f.loc)
@@ -482,11 +490,12 @@ def run_algebra(ctx):
         b = f.body
         K = "%s:%s:" % (rule, f.id)
         fills = calls_named(ctx, f, "fill_bytes")
-        good = len(fills) == 4
+        good = len(fills) == 4 and Index(AnyLocal(), Lit(0))(fills[0][1][2][1])
+        SEEDS = Same(fills[0][1][2][1][1]) if good else Any()
         if good:
             pairs = [(fills[0], fills[1]), (fills[2], fills[3])]
             for (x, y) in pairs:
-                good = good and Index(Var("seeds"), Lit(0))(x[1][2][1]) and Index(Var("seeds"), Lit(1))(y[1][2][1]) and \
+                good = good and Index(SEEDS, Lit(0))(x[1][2][1]) and Index(SEEDS, Lit(1))(y[1][2][1]) and \
                     x[1][2][0] == y[1][2][0] and b.dominates(x[0], y[0])
         req(ctx, rule, K + "two-seeds-in-order", good, "seeds[0] then seeds[1] read from the same stream in both modes",
             "extend does not read seeds[0] then seeds[1] from one stream", loc=f.loc)
@@ -494,8 +503,8 @@ def run_algebra(ctx):
         good = len(rds) == 1 and rds[0].expr[0] == "agg" and len(rds[0].expr[2]) == 2
         if good:
             sd, cbs = rds[0].expr[2]
-            bit = lambda i: S(Bin("BitAnd", Index(Index(Var("seeds"), Lit(i)), Lit(0)), Lit(1)))
-            good = Var("seeds")(sd) and cbs[0] == "agg" and len(cbs[2]) == 2 and bit(0)(cbs[2][0]) and bit(1)(cbs[2][1])
+            bit = lambda i: S(Bin("BitAnd", Index(Index(SEEDS, Lit(i)), Lit(0)), Lit(1)))
+            good = SEEDS(sd) and cbs[0] == "agg" and len(cbs[2]) == 2 and bit(0)(cbs[2][0]) and bit(1)(cbs[2][1])
         # the clearing writes
         clears = 0
         for bi, si, s in b.iter_stmts():
@@ -515,11 +524,12 @@ def run_algebra(ctx):
         fills = calls_named(ctx, f, "fill_bytes")
         gens = calls_named(ctx, f, "generate")
         rds = [rd for rd in g.retdefs if rd.expr is not None]
-        good = len(fills) == 2 and len(gens) == 2 and len(rds) == 2
+        good = len(fills) == 2 and len(gens) == 2 and len(rds) == 2 and AnyLocal()(fills[0][1][2][1])
+        NS = Same(fills[0][1][2][1]) if good else Any()
         if good:
             for (x, y, rd) in zip(fills, gens, rds):
-                good = good and Var("next_seed")(x[1][2][1]) and x[1][2][0] == y[1][2][0] and Local(3)(y[1][2][1]) and b.dominates(x[0], y[0]) and \
-                    rd.expr[0] == "agg" and Var("next_seed")(rd.expr[2][0]) and rd.expr[2][1] == y[1]
+                good = good and NS(x[1][2][1]) and x[1][2][0] == y[1][2][0] and Local(3)(y[1][2][1]) and b.dominates(x[0], y[0]) and \
+                    rd.expr[0] == "agg" and NS(rd.expr[2][0]) and rd.expr[2][1] == y[1]
         req(ctx, rule, "%s:%s" % (rule, f.id), good, "next_seed = first 16 bytes; value = V::generate(rest of the same stream, parameter)",
             "convert does not read the next seed and then the value from one stream", loc=f.loc)
     except Skip:
@@ -535,11 +545,20 @@ def run_algebra(ctx):
         ex = calls_named(ctx, f, "extend")
         cx = calls_named(ctx, f, "conditional_xor_seeds")
         bx = calls_named(ctx, f, "bitxor_assign")
-        good = len(ex) == 1 and KEY(ex[0][1][2][0]) and len(cx) == 2 and len(bx) == 2
+        good = len(ex) == 1 and KEY(ex[0][1][2][0]) and len(cx) == 2 and len(bx) == 2 and \
+            Index(AnyLocal(), Lit(0))(cx[0][1][2][0]) and Index(AnyLocal(), Lit(0))(bx[0][1][2][0])
+        SDS = Same(cx[0][1][2][0][1]) if good else Any()
+        CBS2 = Same(bx[0][1][2][0][1]) if good else Any()
+        if good:
+            # they are the two components of extend(key, extend_mode)
+            s_l, c_l = cx[0][1][2][0][1], bx[0][1][2][0][1]
+            si = g.eb.init_expr(s_l[1]) if s_l[0] == "phi" else None
+            ci = g.eb.init_expr(c_l[1]) if c_l[0] == "phi" else None
+            good = si is not None and ci is not None and Field(Same(ex[0][1]), name="0")(si) and Field(Same(ex[0][1]), name="1")(ci)
         if good:
             for i in (0, 1):
-                good = good and Index(Var("seeds"), Lit(i))(cx[i][1][2][0]) and Field(CW, "seed")(cx[i][1][2][1]) and CB(cx[i][1][2][2]) and \
-                    Index(Var("control_bits"), Lit(i))(bx[i][1][2][0]) and \
+                good = good and Index(SDS, Lit(i))(cx[i][1][2][0]) and Field(CW, "seed")(cx[i][1][2][1]) and CB(cx[i][1][2][2]) and \
+                    Index(CBS2, Lit(i))(bx[i][1][2][0]) and \
                     Bin("BitAnd", Index(Field(CW, "control_bits"), Lit(i)), CB, commutative=True)(bx[i][1][2][1])
         req(ctx, rule, K + "correction", good, "seeds[b] ^= cw.seed if t; control_bits[b] ^= cw.control_bits[b] & t   (b = 0, 1)",
             "eval_next does not apply the correction word to both children under the current control bit", loc=f.loc)
@@ -550,8 +569,8 @@ def run_algebra(ctx):
         neg = calls_named(ctx, f, "conditional_negate")
         good = len(sel) == 1 and len(csel) == 1 and len(cv) == 1 and len(vsel) == 1 and len(neg) == 1
         if good:
-            good = BIT(sel[0][1][2][0]) and Var("seeds")(sel[0][1][2][1]) and \
-                Index(Var("control_bits"), Lit(0))(csel[0][1][2][0]) and Index(Var("control_bits"), Lit(1))(csel[0][1][2][1]) and BIT(csel[0][1][2][2]) and \
+            good = BIT(sel[0][1][2][0]) and SDS(sel[0][1][2][1]) and \
+                Index(CBS2, Lit(0))(csel[0][1][2][0]) and Index(CBS2, Lit(1))(csel[0][1][2][1]) and BIT(csel[0][1][2][2]) and \
                 cv[0][1][2][0] == sel[0][1] and Local(2)(cv[0][1][2][2]) and \
                 Call("zero", Local(2))(vsel[0][1][2][0]) and Field(CW, "value")(vsel[0][1][2][1]) and CB(vsel[0][1][2][2]) and \
                 S(Un("Not", Local(1)))(neg[0][1][2][1])
@@ -711,10 +730,10 @@ def run_algebra(ctx):
             bitsm1 = Bin("Sub", Len(Local(2)), Lit(1))
             good = src is not None and Call("enumerate", Local(3))(src) and adapters_in(src) == [] and \
                 Mentions(Index(Local(2), Field(item, name="0")))(c[2][0]) and Field(item, name="1")(c[2][1]) and \
-                Field(Local(1), "inner_node_value_parameter")(c[2][2]) and Var("keys")(c[2][3]) and Var("control_bits")(c[2][4])
+                Field(Local(1), "inner_node_value_parameter")(c[2][2]) and AnyLocal()(c[2][3]) and AnyLocal()(c[2][4]) and c[2][3] != c[2][4]
             cl = leaf[0][1]
             good = good and Mentions(Index(Local(2), bitsm1))(cl[2][0]) and Local(4)(cl[2][1]) and Field(Local(1), "leaf_node_value_parameter")(cl[2][2]) and \
-                Var("keys")(cl[2][3]) and Var("control_bits")(cl[2][4])
+                cl[2][3] == c[2][3] and cl[2][4] == c[2][4]
             # the inner loop precedes the leaf
             lp = g.loop_of(inner[0][0])
             good = good and b.dominates(lp[0], leaf[0][0])
@@ -722,7 +741,10 @@ def run_algebra(ctx):
             "gen does not produce one correction word per level from that level's input bit and value, in order", loc=f.loc)
         ctx.require_guard(rule, f, "Ge", Field(Field(Call("next"), name="0", variant="Some"), name="0"), Bin("Sub", Len(Local(2)), Lit(1)),
                           every_iteration=True, desc="too many inner values -> Err")
-        ctx.require_guard(rule, f, "Ne", Len(Var("inner_correction_words")), Bin("Sub", Len(Local(2)), Lit(1)), desc="too few inner values -> Err")
+        pushes = [c for bi, c in calls_named(ctx, f, "push") if inner and c[2][1] == inner[0][1]]
+        ICW = Same(pushes[0][2][0]) if len(pushes) == 1 else (lambda e: False)
+        req(ctx, rule, K + "words-collected", len(pushes) == 1, "every inner correction word is pushed onto one vector", "the inner correction words are not collected by a single push per level", loc=f.loc)
+        ctx.require_guard(rule, f, "Ne", Len(ICW), Bin("Sub", Len(Local(2)), Lit(1)), desc="too few inner values -> Err")
         # initial state
         kinit = g.eb.init_expr([c for bi, c in gcw][0][2][3][1]) if gcw and gcw[0][1][2][3][0] == "phi" else None
         cinit = g.eb.init_expr(gcw[0][1][2][4][1]) if gcw and gcw[0][1][2][4][0] == "phi" else None
@@ -734,7 +756,7 @@ def run_algebra(ctx):
         good = len(acc) == 1 and acc[0].payload is not None and acc[0].payload[0] == "agg" and len(acc[0].payload[2]) == 2
         if good:
             ps, ks = acc[0].payload[2]
-            good = ps[0] == "agg" and "IdpfPublicShare" in ps[1] and Var("inner_correction_words")(ps[2][0]) and ps[2][1] == leaf[0][1] if leaf else False
+            good = ps[0] == "agg" and "IdpfPublicShare" in ps[1] and ICW(ps[2][0]) and ps[2][1] == leaf[0][1] if leaf else False
         req(ctx, rule, K + "result", good, "Ok((IdpfPublicShare { all inner words, leaf word }, initial keys))",
             "gen does not return all correction words and the initial keys", loc=f.loc)
     except Skip:
